@@ -170,7 +170,13 @@ impl Runner {
 
     //--- Views of the actual state
 
-    /// Union of the resources on the certificates the CA has received.
+    /// Union of the resources on the certificates of the active keys of the
+    /// CA (what the CA "holds"; a new key staged during a roll does not
+    /// count, only the active key signs).
+    ///
+    /// The union is formed on the block lattice and is therefore canonical;
+    /// rpki-rs's `ResourceSet::union` can leave overlapping, unsorted blocks
+    /// behind for which `contains` gives wrong answers.
     pub fn held_set(&self, inst: usize, ca: &str) -> Option<ResourceSet> {
         hooks::with_faults_suspended(|| {
             let i = self.world.inst(inst);
@@ -180,12 +186,27 @@ impl Runner {
             let info = i.rt().ca_manager().get_ca(&handle(ca)).ok()?
                 .as_ca_info();
             let value = serde_json::to_value(&info.resource_classes).ok()?;
-            let mut set = ResourceSet::default();
-            collect_incoming(&value, &mut |res| {
-                set = set.union(res);
+            let mut lattice = Res::NONE;
+            let mut exact: Option<ResourceSet> = None;
+            let mut count = 0;
+            collect_active(&value, &mut |res| {
+                lattice = lattice.union(&Res::from_set(res));
+                exact = Some(res.clone());
+                count += 1;
             });
-            Some(set)
+            if count == 1 {
+                // A single class: its certificate is what is held (this
+                // also covers CAs holding more than the lattice universe).
+                return exact
+            }
+            Some(lattice.to_set())
         })
+    }
+
+    /// Number of resource classes with an active key.
+    pub fn class_count(&self, inst: usize, ca: &str) -> usize {
+        self.class_infos(inst, ca).iter()
+            .filter(|c| c.active_key.is_some()).count()
     }
 
     pub fn views(&self) -> BTreeMap<String, CaView> {
@@ -289,6 +310,11 @@ impl Runner {
         if !self.oracles.c05 {
             return
         }
+        let what = &if detail.contains("[multi-class]") {
+            format!("{what}_multiclass")
+        } else {
+            what.to_string()
+        };
         if let Some(expect_ok) = predicted {
             self.stat(if expect_ok { "c05.pred_accept" } else { "c05.pred_refuse" });
             if expect_ok != res.is_ok() {
@@ -545,7 +571,12 @@ impl Runner {
             Some(!res.is_empty() && held.contains(&res.to_set()) && !dup)
         };
         let detail = format!(
-            "child {name} under {parent} with {res}"
+            "child {name} under {parent} with {res}; parent holds {}{}",
+            self.held_set(pinst, parent).map(|s| s.to_string())
+                .unwrap_or_default(),
+            if parent != "ta" && self.class_count(pinst, parent) > 1 {
+                " [multi-class]"
+            } else { "" }
         );
         let already_child = self.model.child_at(pinst, parent, name).is_some();
         let result = self.world.add_child(
@@ -667,9 +698,12 @@ impl Runner {
             handle(parent), ChildHandle::from_str(child).unwrap(),
             api::admin::UpdateChildRequest::resources(res.to_set()), ADMIN
         )).map_err(err_string);
+        let multi = if self.class_count(inst, parent) > 1 {
+            " [multi-class]"
+        } else { "" };
         self.judge(
             "child_update", predicted, &result,
-            &format!("child {child} of {parent} to {res}")
+            &format!("child {child} of {parent} to {res}{multi}")
         );
         if result.is_ok() {
             self.state_changing_ops += 1;
@@ -761,6 +795,7 @@ impl Runner {
                     ok = false;
                 }
             }
+            let mut compare = desired.clone();
             for spec in add {
                 let key = spec.key();
                 if !spec.max_len_valid() {
@@ -769,16 +804,22 @@ impl Runner {
                 else if !held.contains(&spec.pfx.to_set()) {
                     ok = false;
                 }
-                else if let Some(comment) = desired.get(&key) {
+                else if let Some(comment) = compare.get(&key) {
                     if comment == &spec.comment {
                         ok = false; // duplicate
                     }
                     else {
+                        // Same payload with another comment: a comment
+                        // update. An entry that existed before the delta
+                        // is judged against its comment as it was before
+                        // the delta (so repeating the same new comment in
+                        // one delta is idempotent, not a duplicate).
                         desired.insert(key, spec.comment.clone());
                     }
                 }
                 else {
-                    desired.insert(key, spec.comment.clone());
+                    desired.insert(key.clone(), spec.comment.clone());
+                    compare.insert(key, spec.comment.clone());
                 }
             }
             predicted = Some(ok);
@@ -790,6 +831,7 @@ impl Runner {
             predicted = Some(false);
         }
         let before = self.config_digest(inst, ca);
+        let audit_before = self.audit_tail(inst, ca);
         let i = self.world.inst(inst);
         i.enter();
         let updates = api::roa::RoaConfigurationUpdates {
@@ -809,6 +851,8 @@ impl Runner {
             remove.iter().map(|s| s.payload_text()).collect::<Vec<_>>(),
         );
         self.judge("roa_delta", predicted, &result, &detail);
+        let noop = add.is_empty() && remove.is_empty();
+        self.check_audit(inst, ca, "roa_delta", audit_before, &result, noop);
         match &result {
             Ok(()) => {
                 self.state_changing_ops += 1;
@@ -877,6 +921,16 @@ impl Runner {
             predicted = Some(false);
         }
         let before = self.config_digest(inst, ca);
+        let audit_before = self.audit_tail(inst, ca);
+        let aspa_noop = self.model.ca(inst, ca).map(|mca| {
+            remove.is_empty() && add.iter().all(|(c, p)| {
+                mca.aspas.get(c).map(|cur| {
+                    cur.iter().copied().collect::<Vec<u32>>() == {
+                        let mut p = p.clone(); p.sort(); p.dedup(); p
+                    }
+                }).unwrap_or(false)
+            })
+        }).unwrap_or(false);
         let i = self.world.inst(inst);
         i.enter();
         let updates = api::aspa::AspaDefinitionUpdates {
@@ -894,6 +948,9 @@ impl Runner {
         self.judge(
             "aspa_update", predicted, &result,
             &format!("ca {ca} add {add:?} remove {remove:?}")
+        );
+        self.check_audit(
+            inst, ca, "aspa_update", audit_before, &result, aspa_noop
         );
         match &result {
             Ok(()) => {
@@ -953,6 +1010,14 @@ impl Runner {
             predicted = Some(false);
         }
         let before = self.config_digest(inst, ca);
+        let audit_before = self.audit_tail(inst, ca);
+        let providers_noop = self.model.ca(inst, ca).map(|mca| {
+            let existing = mca.aspas.get(&customer).cloned().unwrap_or_default();
+            let mut updated = existing.clone();
+            for r in removed { updated.remove(r); }
+            for a in added { updated.insert(*a); }
+            updated == existing
+        }).unwrap_or(false);
         let i = self.world.inst(inst);
         i.enter();
         let update = api::aspa::AspaProvidersUpdate {
@@ -965,6 +1030,9 @@ impl Runner {
         self.judge(
             "aspa_providers", predicted, &result,
             &format!("ca {ca} customer {customer} +{added:?} -{removed:?}")
+        );
+        self.check_audit(
+            inst, ca, "aspa_providers", audit_before, &result, providers_noop
         );
         match &result {
             Ok(()) => {
@@ -1023,6 +1091,12 @@ impl Runner {
             predicted = Some(false);
         }
         let before = self.config_digest(inst, ca);
+        let audit_before = self.audit_tail(inst, ca);
+        let bgpsec_noop = self.model.ca(inst, ca).map(|mca| {
+            remove.is_empty() && add.iter().all(|(asn, idx, corrupt)| {
+                !corrupt && mca.bgpsec.contains(&(*asn, idx % n))
+            })
+        }).unwrap_or(false);
         let mut defs = Vec::new();
         for (asn, idx, corrupt) in add {
             let mut bytes = self.csrs[idx % n].to_vec();
@@ -1058,6 +1132,14 @@ impl Runner {
             "bgpsec_update", predicted, &result,
             &format!("ca {ca} add {add:?} remove {remove:?}")
         );
+        // Re-adding an identical definition counts as an update in Krill
+        // (the stored CSR carries the time it was first processed), so the
+        // audit expectation is only checked when something really changes.
+        if !bgpsec_noop {
+            self.check_audit(
+                inst, ca, "bgpsec_update", audit_before, &result, false
+            );
+        }
         match &result {
             Ok(()) => {
                 self.state_changing_ops += 1;
@@ -1119,6 +1201,74 @@ impl Runner {
             }
             crate::util::sha256_hex(text.as_bytes())
         })
+    }
+
+    /// Number of audit records of a CA and whether the last one is an error.
+    pub fn audit_tail(&self, inst: usize, ca: &str) -> (usize, bool) {
+        hooks::with_faults_suspended(|| {
+            let i = self.world.inst(inst);
+            if !i.is_up() {
+                return (0, false)
+            }
+            let crit = api::history::CommandHistoryCriteria {
+                before: None, after: None, after_version: None,
+                label_includes: None, label_excludes: None,
+                offset: 0, rows_limit: None,
+            };
+            match i.rt().ca_manager().ca_history(&handle(ca), crit) {
+                Ok(hist) => {
+                    let last_err = hist.commands.last().map(|rec| {
+                        matches!(
+                            rec.effect,
+                            api::history::CommandHistoryResult::Error(_)
+                        )
+                    }).unwrap_or(false);
+                    (hist.total, last_err)
+                }
+                Err(_) => (0, false)
+            }
+        })
+    }
+
+    /// The audit trail after a command: one error record for a refusal, one
+    /// success record for an effective command, nothing for a no-op.
+    fn check_audit(
+        &mut self, inst: usize, ca: &str, what: &str,
+        before: (usize, bool), result: &Result<(), String>, noop: bool,
+    ) {
+        if !self.oracles.c05 || self.model.ca(inst, ca).is_none() {
+            return
+        }
+        let after = self.audit_tail(inst, ca);
+        match result {
+            Err(_) => {
+                if after.0 != before.0 + 1 || !after.1 {
+                    self.violation(
+                        "C05", &format!("{what}_refusal_audit"),
+                        format!(
+                            "{what} on {ca} was refused; expected exactly one \
+                             new audit record carrying the error, found {} \
+                             new record(s), last is error: {}",
+                            after.0 as i64 - before.0 as i64, after.1
+                        )
+                    );
+                }
+            }
+            Ok(()) => {
+                let expect = if noop { 0 } else { 1 };
+                if after.0 != before.0 + expect || (expect == 1 && after.1) {
+                    self.violation(
+                        "C05", &format!("{what}_accept_audit"),
+                        format!(
+                            "{what} on {ca} was accepted (no-op: {noop}); \
+                             expected {expect} new audit record(s), found {}, \
+                             last is error: {}",
+                            after.0 as i64 - before.0 as i64, after.1
+                        )
+                    );
+                }
+            }
+        }
     }
 
     fn check_refusal_untouched(
@@ -1594,6 +1744,30 @@ impl Runner {
             }
         }
         problems.into_iter().next().map(|p| format!("CA {}: {p}", ca.name))
+    }
+}
+
+/// Calls `op` for the certificate resources of every `active_key`.
+pub fn collect_active(
+    value: &serde_json::Value, op: &mut dyn FnMut(&ResourceSet),
+) {
+    match value {
+        serde_json::Value::Object(map) => {
+            if let Some(key) = map.get("active_key") {
+                collect_incoming(key, op);
+            }
+            for (name, v) in map {
+                if name != "active_key" {
+                    collect_active(v, op);
+                }
+            }
+        }
+        serde_json::Value::Array(items) => {
+            for v in items {
+                collect_active(v, op);
+            }
+        }
+        _ => { }
     }
 }
 
